@@ -221,16 +221,24 @@ impl<'a> From<Value<'a>> for NaiveDate {
 impl<'a> From<Value<'a>> for NaiveDateTime {
     fn from(val: Value<'a>) -> Self {
         if let ValueInner::Datetime(mut v) = val.0 {
-            assert!(v.len() == 7 || v.len() == 11);
+            assert!(v.len() == 4 || v.len() == 7 || v.len() == 11);
+            let has_time = v.len() >= 7;
             let has_micros = v.len() == 11;
             if let Some(d) = NaiveDate::from_ymd_opt(
                 i32::from(v.read_u16::<LittleEndian>().unwrap()),
                 u32::from(v.read_u8().unwrap()),
                 u32::from(v.read_u8().unwrap()),
             ) {
-                let h = u32::from(v.read_u8().unwrap());
-                let m = u32::from(v.read_u8().unwrap());
-                let s = u32::from(v.read_u8().unwrap());
+                // the 4-byte form carries a date only (midnight)
+                let (h, m, s) = if has_time {
+                    (
+                        u32::from(v.read_u8().unwrap()),
+                        u32::from(v.read_u8().unwrap()),
+                        u32::from(v.read_u8().unwrap()),
+                    )
+                } else {
+                    (0, 0, 0)
+                };
 
                 let d = if has_micros {
                     let us = v.read_u32::<LittleEndian>().unwrap();
